@@ -357,9 +357,26 @@ func RunC01(d *Driver) *Report {
 				if !ok || strings.SplitN(got, "\n", 2)[0] != "2" {
 					r.Violation(Case{Stream: "wss-separation", Input: src, Real: strings.SplitN(got, "\n", 2)[0], Spec: "whitespace separates the elements of an array literal: two elements"})
 				}
+				// the value of a map literal's pair ends at the whitespace (rule 6), also inside a call in a group
+				for _, form := range []string{"x2 := {p:%s q:%s}\nprint (len x2) x2.q\n", "x2 := [(len [%s %s])]\nprint x2[0] (len [%s])\n"} {
+					var src2, want string
+					if strings.HasPrefix(form, "x2 := {") {
+						src2 = pre + fmt.Sprintf(form, p1, nx) + use
+						want = "2 " + l2
+					} else {
+						src2 = pre + fmt.Sprintf(form, p1, nx, nx) + use
+						want = "2 1"
+					}
+					got2, ok2 := out(src2)
+					nws++
+					r.Count("wss:"+src2, true)
+					if !ok2 || strings.SplitN(got2, "\n", 2)[0] != want {
+						r.Violation(Case{Stream: "wss-separation", Input: src2, Real: strings.SplitN(got2, "\n", 2)[0], Spec: "whitespace ends the value of a map pair / separates call arguments inside a group: the line prints `" + want + "`"})
+					}
+				}
 			}
 		}
-		r.Rule += fmt.Sprintf("; whitespace separation: %d programs = 21 expression forms (index, slices, field, type assertion, call, literals, variables) x 8 following operands (unary minus, index-like, group, string, not) in argument and array-element position, metamorphic oracle on the real code", nws)
+		r.Rule += fmt.Sprintf("; whitespace separation: %d programs = 21 expression forms (index, slices, field, type assertion, call, literals, variables) x 8 following operands (unary minus, index-like, group, string, not) in argument, array-element, map-value and nested-call position, metamorphic oracle on the real code", nws)
 	}
 	// evaluation order and short circuit
 	for _, src := range c01OrderPrograms() {
